@@ -185,7 +185,15 @@ func c11PathsModel(keys []string, from, h int, dedup bool) []uint64 {
 func c11CheckPathsOf(w *mon.W, keys []string, from, h int, dedup bool) {
 	w.Op, w.A, w.B, w.Obj = "PathsOf", int64(from), int64(h), keys
 	in := append([]string(nil), keys...)
+	guardK := func() bool { return true }
+	if keys != nil {
+		keys, guardK = argStrs(w, keys)
+	}
 	got := bmtree.PathsOf(keys, int32(from), int32(h), dedup)
+	if !guardK() {
+		w.Fail("PathsOf/wrote-outside-len-of-argument", mon.D{"nkeys": len(in)})
+		return
+	}
 	exp := c11PathsModel(in, from, h, dedup)
 	w.Eval(1)
 	all := c11PathsModel(in, from, h, false)
@@ -224,6 +232,7 @@ func c11CheckPathsOf(w *mon.W, keys []string, from, h int, dedup bool) {
 		}
 	}
 	if len(got) > 0 {
+		scribbleW(got) // ours now
 		retainCheck(w, "PathsOf", "bmtree.PathsOf", func() uint64 { return gen.HashWords(got) })
 	}
 }
